@@ -147,6 +147,18 @@ func c04Wiring(c *Ctx, barms, parms map[int64]OpArm) {
 			okOps = c.coercedFrom(argsAfter[0], ops[0])
 		}
 		fresh, whyF := c.fromNewDecimalBig(dc.Call.Args[w])
+		// an operation performed as a Context method rounds to THAT context: it must be a copy of Context128
+		if w == 1 {
+			is128 := false
+			if u, isU := dc.Call.Args[0].(*ssa.UnOp); isU {
+				if g, isG := u.X.(*ssa.Global); isG && g.Name() == "Context128" {
+					is128 = true
+				}
+			}
+			if !is128 {
+				fresh, whyF = false, "the operation is performed in a context other than Context128 ("+describeValue(dc.Call.Args[0])+"): results are rounded to fewer than 34 digits"
+			}
+		}
 		// the handler returns that call's result
 		retOK := len(r.Returns) > 0
 		for _, ret := range r.Returns {
@@ -331,6 +343,17 @@ func c04NoFloat(c *Ctx, barms map[int64]OpArm) {
 							why = fmt.Sprintf("FormatFloat(fmt=%c, prec=%d, bits=%d), from the value=%v", rune(fm), pr, bs, src)
 						}
 					}
+				}
+			}
+			// and on every path: no shortcut around the text conversion
+			if good {
+				isSet := func(in ssa.Instruction) bool {
+					cc, ok := in.(*ssa.Call)
+					return ok && calleeOf(cc) != nil && calleeOf(cc).String() == "(*"+decimalPath+".Big).SetString"
+				}
+				if pathExistsIn(r, nil, isReturn, isSet) {
+					good = false
+					why = "some path returns a number for a " + k + " without going through the decimal text (a shortcut such as int64(f) for whole numbers takes the exact binary value, which above 2^53 is not the value the float prints as)"
 				}
 			}
 			c.R.Check(rule, "float-entry:"+k, c.P.Pos(f.Pos()), good, "a Go "+k+" must enter as SetString(strconv.FormatFloat(f, 'f'|'g'|'e', -1, 64)), its shortest round-trip decimal text; "+why)
